@@ -394,3 +394,8 @@ impl Metainfo {
         }
     }
 }
+
+// Verification hooks (harnesses live in /verif/hooks); inert unless built with --cfg rdest_verif or by cargo-kani
+#[cfg(any(kani, rdest_verif))]
+#[path = "/verif/hooks/metainfo.rs"]
+mod verif_hooks;
